@@ -194,9 +194,12 @@ impl ObjectReceiver {
             oti.encoding_symbol_length as u64,
         );
 
-        nb_blocks > 0
-            && self.nb_block() as u64 == nb_blocks
-            && self.nb_block_completed() as u64 == nb_blocks
+        if nb_blocks == 0 {
+            // Empty object
+            return self.transfer_length == Some(0);
+        }
+
+        self.nb_block() as u64 == nb_blocks && self.nb_block_completed() as u64 == nb_blocks
     }
 
     fn push_to_block2(&mut self, pkt: &alc::AlcPkt, now: std::time::SystemTime) -> Result<()> {
@@ -212,6 +215,10 @@ impl ObjectReceiver {
 
         if self.transfer_length.unwrap() == 0 {
             debug_assert!(self.block_writer.is_none());
+            if self.object_writer.is_none() {
+                // Empty object received before its FDT, wait for the FDT
+                return Ok(());
+            }
             self.complete(now);
             return Ok(());
         }
@@ -409,6 +416,15 @@ impl ObjectReceiver {
         self.write_blocks(0, now)
             .unwrap_or_else(|_| self.error("Fail to write blocks to storage", now, false));
         self.push_from_cache(now);
+
+        if self.state == State::Receiving
+            && self.transfer_length == Some(0)
+            && self.oti.is_some()
+            && self.object_writer.is_some()
+        {
+            // Empty object that was only waiting for its FDT
+            self.complete(now);
+        }
         true
     }
 
